@@ -7,7 +7,7 @@ from hypothesis import strategies as st
 
 from vlib import build
 from vlib import gen_scenarios as gs
-from vlib.core import Sub, Violation, guarded, repo_frame
+from vlib.core import Sub, Violation, guarded
 
 PROPERTY = "C01"
 RULE = (
@@ -23,19 +23,15 @@ RULE = (
 )
 ASSUMPTIONS = [
     "escape detection: stdout contains 'Smallest/Largest available configuration selected.'",
-    "a find_design that raises ValueError produced no design (C02 judges the exception types); other exception types are "
-    "reported here as violations only if they come from inside the repository",
+    "a find_design that raises produced no design and is only counted here (C02 judges which exception types may escape)",
 ]
 
 
 def _judge(scn, out, layer, rec):
     if out.error is not None:
-        if isinstance(out.error, ValueError):
-            rec.cls("no_design(ValueError)")
-            return
-        where = repo_frame(out.error.__traceback__)
-        raise Violation(f"find_design raised {type(out.error).__name__}: {out.error} at {where}",
-                        sig={"kind": "exception", "exc": type(out.error).__name__, "where": where})
+        # no design was produced; which exception types may escape is C02's subject, not this property's
+        rec.cls(f"no_design({type(out.error).__name__})")
+        return
     rec.cls("method_" + scn["method"])
     if out.escaped:
         rec.cls("escaped(continue_if_design_unmet)")
@@ -75,7 +71,15 @@ def check_l3(case, rec):
 def check_size(case, rec):
     from ghedesigner.enums import TimestepType
 
-    ghe, media, coords, hourly = guarded(build.make_ghe, case, what="GHE construction")
+    if not (case["min_eft"] < case["bhe"]["soil"]["ugt"] < case["max_eft"]):
+        rec.cls("limits_do_not_bracket_ground_temperature(skipped)")
+        return
+    try:
+        hourly = guarded(build.calibrated_hourly, case, allow=(ValueError,), what="load calibration")
+    except ValueError:
+        rec.cls("rejected(ValueError)")
+        return
+    ghe, media, coords, hourly = guarded(build.make_ghe, case, hourly=hourly, what="GHE construction")
     with warnings.catch_warnings():
         warnings.simplefilter("ignore")
         try:
@@ -115,7 +119,7 @@ def check_size(case, rec):
 
 
 def search_l2(ctx):
-    ctx.given_shared(gs.scenario(), ctx.total(64, 1500))
+    ctx.given_shared(gs.scenario(), ctx.total(96, 1500))
 
 
 def search_l3(ctx):
